@@ -448,3 +448,97 @@ theorem population_reader_shape :
       [("SplitN", "\" \"/2"), ("Sprintf", "genomestart %s\n"), ("Fprintf", "genomeend %d"), ("Fprintln", "")] := by decide
 
 end GoNeat.C15
+
+/-! ## Non-vacuity and counterexamples -/
+
+namespace GoNeat.C15
+open GoNeat.PlainIO GoNeat.Codec
+
+/-- a toy instance: "floats" are naturals printed in decimal; activation names from the real registry -/
+def natCodec : Codec Nat :=
+  regCodec fmtNat (fun s => match parseInt s with
+    | some (.ofNat n) => some n
+    | _ => none)
+
+theorem natCodec_floats : FloatsRoundTrip natCodec := by
+  intro x
+  simp [natCodec, regCodec, parseInt_fmtNat]
+
+/-- one trait, a bias + input + output + hidden node (one with a trait, the others nil), three genes: a disabled
+    one, a recurrent self-loop with nil trait, and one with a trait -/
+def exGenome : Genome Nat :=
+  { id := 7
+    traits := [{ id := 1, params := [1, 0, 0, 0, 0, 0, 0, 25] }, { id := 3, params := [0, 0, 0, 0, 0, 0, 0, 0] }]
+    nodes := [{ id := 1, kind := Kind.bias, act := 17, trait := none }, { id := 2, kind := Kind.input, act := 17, trait := some 3 },
+              { id := 4, kind := Kind.output, act := 4, trait := none }, { id := 9, kind := Kind.hidden, act := 11, trait := some 1 }]
+    genes := [{ inn := 1, src := 1, dst := 4, recur := false, w := 5, mnum := 0, en := false, trait := some 1 },
+              { inn := 2, src := 9, dst := 9, recur := true, w := 12345678901234567890, mnum := 3, en := true, trait := none },
+              { inn := 5, src := 2, dst := 9, recur := false, w := 0, mnum := 0, en := true, trait := some 3 }] }
+
+example : WFio natCodec exGenome = true := by decide
+example : WFpop natCodec exGenome = true := by decide
+example : WFyaml natCodec ⟨0, 1⟩ exGenome = true := by decide
+example : parse natCodec (render natCodec exGenome) = .ok exGenome :=
+  parse_render natCodec natCodec_floats (registry_acts_roundtrip _ _) exGenome (by decide)
+
+def exCtrl : Node := { id := 20, kind := Kind.hidden, act := 21, trait := some 1 }
+
+def exModule : Module Nat :=
+  { inn := 9, mnum := 2, en := true, ctrl := exCtrl,
+    ins := [{ node := 2, w := 1, recur := false, trait := none }, { node := 9, w := 1, recur := false, trait := none }],
+    outs := [{ node := 4, w := 1, recur := false, trait := none }] }
+
+/-- a modular genome as the YAML reader builds it (module link weights `1`) -/
+def exModular : Genome Nat := { exGenome with modules := [exModule] }
+
+example : WFyaml natCodec ⟨0, 1⟩ exModular = true := by decide
+
+def exExperiment : Codec.Experiment Nat :=
+  { id := 1, name := "xor", trials := [{ id := 0, gens := [
+      { id := 0, executed := 1700000000000000000, solved := true, fitness := [3, 4], age := [1, 1], complexity := [7, 9],
+        diversity := 2, winnerEvals := 150, winnerNodes := 4, winnerGenes := 3, duration := 1000, trialId := 0,
+        champion := some { fitness := 4, isWinner := true, generation := 0, expectedOffspring := 2, error := 0,
+                           genotype := some exGenome } }] }] }
+
+example : WFexp natCodec exExperiment = true := by decide
+
+def exModel : FastModel Nat :=
+  { id := 1, name := "m", nInput := 2, nSensor := 3, nOutput := 1, nBias := 1, nTotal := 5, acts := [17, 17, 17, 4, 11],
+    biasList := [0, 0, 0, 0, 2], conns := [{ src := 1, tgt := 4, weight := 3, signal := 0 }], modules := [{ act := 21, ins := [1, 2], outs := [4] }] }
+
+example : WFmodel natCodec exModel = true := by decide
+
+/-- **Counterexample against the shipped `ReadPopulation`** (`PlainIO.Legacy`: the per-genome buffer starts with
+    `"genomestart <id>"` without a newline, so the first line behind it is glued to it and skipped by the genome
+    reader).  Writing the one-genome population `[exGenome]` and reading it back loses the first trait (id 1)
+    and with it the trait pointer of the first gene; with the repair (`parsePop`) both are restored. -/
+theorem readPopulation_legacy_counterexample :
+    (Legacy.parsePop natCodec (renderPop natCodec [exGenome])).toOption.map
+        (·.map fun g => (g.traits.map (·.id), g.genes.map (·.trait))) = some [([3], [none, none, some 3])] ∧
+    (parsePop natCodec (renderPop natCodec [exGenome])).toOption.map
+        (·.map fun g => (g.traits.map (·.id), g.genes.map (·.trait))) = some [([1, 3], [some 1, none, some 3])] := by
+  decide
+
+/-- **Observation (YAML modules).** The YAML writer does not write module link weights (`encWires` holds only
+    endpoint id and order) and the reader rebuilds every module link as `NewLink(1.0, …)`: whatever the source
+    weights were, every module link read back has weight `1.0`, is not recurrent and has no trait. -/
+theorem yaml_module_links_read_as_one {F : Type} (K : Consts F) (nodes : List Node) (ws ws' : List (Wire F)) (i : Nat)
+    (h : decWires K nodes (encWires i ws) = .ok ws') :
+    ∀ w ∈ ws', w.w = K.one ∧ w.recur = false ∧ w.trait = none := by
+  induction ws generalizing i ws' with
+  | nil => simp [encWires, decWires] at h; subst h; simp
+  | cons w ws ih =>
+    simp only [encWires, decWires, Codec.get, List.find?, beq_self_eq_true] at h
+    split at h
+    · cases hd : decWires K nodes (encWires (i + 1) ws) with
+      | error e => simp [hd] at h
+      | ok r =>
+        simp only [hd, Except.ok.injEq] at h
+        subst h
+        intro x hx
+        rcases List.mem_cons.mp hx with rfl | hx
+        · exact ⟨rfl, rfl, rfl⟩
+        · exact ih r (i + 1) hd x hx
+    · simp at h
+
+end GoNeat.C15
